@@ -545,6 +545,140 @@ func c17Concurrent(rep *Report, seed uint64, tier string) {
 	rep.Notes = append(rep.Notes, fmt.Sprintf("concurrency: %d inputs evaluated alone, then by %d goroutines at once in %d rounds; interleavings are sampled, not enumerated", nIn, workers, rounds))
 }
 
+// ---- purity of RESULTS: what a call returns must not be shared with what later calls return ----
+// Every function that returns bytes is called, the returned bytes are scribbled over where the
+// type allows it (slices: every byte overwritten in place and the spare capacity written by an
+// append; arrays: the caller's copy overwritten), the function is called again with the same
+// inputs, and the fresh result must equal the independently computed value.  Interleaved with
+// deposits through the real msg server: the escrow balance must appear under the documented
+// address of the bridge even after a caller has written into an address it was handed.
+func scribble(b []byte) {
+	for i := range b {
+		b[i] ^= 0xFF
+	}
+	full := b[:cap(b)]
+	for i := len(b); i < len(full); i++ {
+		full[i] = 0xEE
+	}
+	_ = append(b[:0], bytes.Repeat([]byte{0x77}, len(b))...) // append within capacity
+}
+
+func c17ResultAliasing(rep *Report, seed uint64, tier string) {
+	r := NewRng(seed*15485863 + 11)
+	g := &c17Gen{rep: NewReport("scratch", 0, ""), r: r}
+	n := 60
+	if tier == "thorough" {
+		n = 600
+	}
+	bad := func(step int, fn, call string, fresh, want []byte) {
+		rep.Violate(Violation{Case: step, Step: step, What: fn + ": after a caller wrote into the value it had been returned, a fresh call with the same inputs no longer returns the documented value (results share memory)",
+			Sig: "C17:result-aliased", Ops: []string{call + "  // returned value overwritten by the caller", call + "  // called again"},
+			Detail: map[string]string{"fresh_result": hex.EncodeToString(fresh), "documented": hex.EncodeToString(want)}})
+	}
+	ids := append([]uint64{}, u64Bounds...)
+	for len(ids) < n {
+		ids = append(ids, g.u64())
+	}
+	// deposits through the real msg server: the escrow is the documented address, whatever callers did to addresses they were handed
+	sc := NewL1Scenario(seed*31+7, 0, nil)
+	e, c := sc.Env, sc.Case
+	for b := uint64(1); b <= 2; b++ {
+		if res := c.Do(sc.Create(e.User(1).Str, sc.NewConfig(1, 2, 7*sec))); !res.OK {
+			panic("C17 result part: create failed: " + res.Err)
+		}
+	}
+	total := map[uint64]int64{}
+	rounds := 6
+	if tier == "thorough" {
+		rounds = 40
+	}
+	for k := 0; k < rounds; k++ {
+		b := uint64(1 + k%2)
+		handed := ophosttypes.BridgeAddress(b) // some caller obtains the escrow address ...
+		if k%3 != 2 {
+			scribble(handed) // ... and writes into its own value
+		}
+		amt := int64(10 + r.Intn(90))
+		op := sc.op(L1Op{Kind: "deposit", Sender: e.User(3).Str, Bridge: b, To: "l2addr", Denom: sc.Denoms[0], Amt: big.NewInt(amt)})
+		res := c.Do(op)
+		rep.Hist(fmt.Sprintf("result-scribbled:deposit-after:%v", res.OK))
+		rep.Ops++
+		if res.OK {
+			total[b] += amt
+		}
+		want := indepAddr(b)
+		got := e.BK.GetBalance(e.Ctx, want, sc.Denoms[0]).Amount
+		if !res.OK || !got.IsInt64() || got.Int64() != total[b] {
+			rep.Violate(Violation{Case: k, Step: 1000 + k, What: fmt.Sprintf("after a caller wrote into a BridgeAddress(%d) value it had been returned, a deposit of %d through the msg server (ok=%v %s) leaves %s at the documented escrow address instead of %d: the escrow is no longer a function of the bridge id",
+				b, amt, res.OK, res.Err, got, total[b]), Sig: "C17:result-aliased", Ops: append(l1OpsHuman(c.Ops), fmt.Sprintf("// before the last op: x := BridgeAddress(%d); overwrite x", b)),
+				Detail: map[string]string{"documented_escrow": hex.EncodeToString(want), "BridgeAddress_now": hex.EncodeToString(ophosttypes.BridgeAddress(b))}})
+			total[b] = 0
+			if got.IsInt64() {
+				total[b] = got.Int64()
+			}
+		}
+		if fresh := ophosttypes.BridgeAddress(b); !bytes.Equal(fresh, want) {
+			copy(fresh, want) // undo
+		}
+	}
+	for i, id := range ids {
+		// BridgeAddress returns a slice
+		want := indepAddr(id)
+		first := ophosttypes.BridgeAddress(id)
+		scribble(first)
+		second := ophosttypes.BridgeAddress(id)
+		rep.Hist("result-scribbled:BridgeAddress")
+		if !bytes.Equal(second, want) {
+			bad(i, "BridgeAddress", fmt.Sprintf("BridgeAddress(%d)", id), second, want)
+			copy(second, want) // undo the damage so that the rest of the run sees the documented address
+		}
+		// array results: the caller owns a copy; overwrite it and derive again
+		a, b := g.nodePair()
+		x := ophosttypes.GenerateNodeHash(a, b)
+		scribble(x[:])
+		y := ophosttypes.GenerateNodeHash(a, b)
+		rep.Hist("result-scribbled:GenerateNodeHash")
+		if !bytes.Equal(y[:], indepNode(a, b)) {
+			bad(i, "GenerateNodeHash", fmt.Sprintf("GenerateNodeHash(%x, %x)", a, b), y[:], indepNode(a, b))
+		}
+		var leaf [32]byte
+		copy(leaf[:], r.Bytes(32))
+		ps := [][]byte{r.Bytes(32), r.Bytes(32), r.Bytes(32)}
+		x = ophosttypes.GenerateRootHashFromProofs(leaf, ps)
+		scribble(x[:])
+		y = ophosttypes.GenerateRootHashFromProofs(leaf, ps)
+		rep.Hist("result-scribbled:GenerateRootHashFromProofs")
+		if !bytes.Equal(y[:], indepRoot(leaf[:], ps)) {
+			bad(i, "GenerateRootHashFromProofs", fmt.Sprintf("GenerateRootHashFromProofs(%x, %v)", leaf, hexList(ps)), y[:], indepRoot(leaf[:], ps))
+		}
+		u1, u2, s1, s2 := g.u64(), g.u64(), g.str(), g.str()
+		x = ophosttypes.GenerateWithdrawalHash(id, u1, s1, s2, s1, u2)
+		scribble(x[:])
+		y = ophosttypes.GenerateWithdrawalHash(id, u1, s1, s2, s1, u2)
+		rep.Hist("result-scribbled:GenerateWithdrawalHash")
+		if !bytes.Equal(y[:], indepLeaf(id, u1, s1, s2, s1, u2)) {
+			bad(i, "GenerateWithdrawalHash", fmt.Sprintf("GenerateWithdrawalHash(%d, %d, %q, %q, %q, %d)", id, u1, s1, s2, s1, u2), y[:], indepLeaf(id, u1, s1, s2, s1, u2))
+		}
+		v, sr, bh := byte(r.Intn(256)), r.Bytes(32), r.Bytes(32)
+		x = ophosttypes.GenerateOutputRoot(v, sr, bh)
+		scribble(x[:])
+		y = ophosttypes.GenerateOutputRoot(v, sr, bh)
+		rep.Hist("result-scribbled:GenerateOutputRoot")
+		if !bytes.Equal(y[:], outputRootOf(v, sr, bh)) {
+			bad(i, "GenerateOutputRoot", fmt.Sprintf("GenerateOutputRoot(%d, %x, %x)", v, sr, bh), y[:], outputRootOf(v, sr, bh))
+		}
+		// strings are immutable: a second call must simply agree with the documented value
+		d := ophosttypes.L2Denom(id, s1)
+		_ = []byte(d)
+		rep.Hist("result-recomputed:L2Denom")
+		if d2 := ophosttypes.L2Denom(id, s1); d2 != indepDenom(id, s1) {
+			bad(i, "L2Denom", fmt.Sprintf("L2Denom(%d, %q)", id, s1), []byte(d2), []byte(indepDenom(id, s1)))
+		}
+		rep.Ops += 12
+	}
+	rep.Notes = append(rep.Notes, fmt.Sprintf("result purity: %d ids / inputs per function with the returned bytes overwritten before the second call; %d deposits through the msg server after a caller wrote into BridgeAddress's result", len(ids), rounds))
+}
+
 func (g *c17Gen) addr() {
 	b := g.u64()
 	out := ophosttypes.BridgeAddress(b)
@@ -745,6 +879,7 @@ func genC17(seed uint64, tier string, outdir string) *Report {
 		nTrees = 28
 	}
 	c17FinalizeLayouts(rep, seed, nTrees)
+	c17ResultAliasing(rep, seed, tier) // last: with shared results it would disturb the other parts
 	rep.Notes = append(rep.Notes, fmt.Sprintf("%d vectors pinned from Python hashlib (harness/corpus/c17_vectors.json); %d layouts per slice-taking call; %d trees claimed through MsgFinalizeTokenWithdrawal under every layout",
 		strings.Count(string(c17VectorsJSON), `"kind"`), nLayouts, nTrees))
 	texts := make([]string, len(g.cases))
